@@ -1,38 +1,57 @@
 #!/usr/bin/env python3
 """tools/mut.py <relpath> <old> <new> <ID> [<ID>...]
-Apply an exact unique string replacement to /repo/<relpath>, run quick checks, ALWAYS revert.
-Several edits: separate triples with '+++':  f1 old1 new1 +++ f2 old2 new2 -- ID ID"""
-import subprocess, sys, os
+Mutation check in a SCRATCH copy (never touches /repo): /tmp/mut/repo is an rsync of /repo's
+working tree, /tmp/mut/harness an rsync of /verif/harness with its path deps pointed at the copy.
+Applies an exact unique string replacement, runs the quick checks, reverts the copy.
+Several edits: separate triples with '+++':  f1 old1 new1 +++ f2 old2 new2 -- ID ID
+Patch file instead of edits:  --patch file.diff -- ID ID"""
+import subprocess, sys, os, shutil
 args = sys.argv[1:]
+patch = None
+reverse = ''
+if args and args[0] in ('--patch', '--patch-reverse'):
+    reverse = '-R ' if args[0] == '--patch-reverse' else ''
+    patch = os.path.abspath(args[1]); args = args[2:]
 if '--' in args:
     i = args.index('--'); edits_raw, ids = args[:i], args[i+1:]
 else:
     edits_raw, ids = args[:3], args[3:]
-edits = []
-cur = []
+edits, cur = [], []
 for a in edits_raw:
     if a == '+++':
         edits.append(cur); cur = []
     else:
         cur.append(a)
-edits.append(cur)
-if subprocess.run(['git','-C','/repo','diff','--quiet']).returncode != 0:
-    print('refusing: /repo dirty'); sys.exit(2)
-try:
-    for f, old, new in edits:
-        p = os.path.join('/repo', f)
-        s = open(p).read()
-        if s.count(old) != 1:
-            print(f'edit of {f}: old string occurs {s.count(old)} times'); sys.exit(2)
-        open(p, 'w').write(s.replace(old, new))
-    env = dict(os.environ)
-    for ID in ids:
-        r = subprocess.run(['/verif/check.sh', ID, env.get('VERIF_TIER','quick')], capture_output=True, text=True, env=env)
-        for l in r.stdout.splitlines():
-            if l.startswith(('VIOLATION','KNOWN-FINDING','SUMMARY','INFRA','WATCHDOG','  detail','NOTE')) or 'error' in l:
-                print(l[:700])
-        print(f'[mutant] {ID} rc={r.returncode}')
-finally:
-    subprocess.run(['git','-C','/repo','checkout','--','.'])
-    subprocess.run('rm -rf /verif/replays/*/found', shell=True)
-    print('[mutant] reverted /repo')
+if cur: edits.append(cur)
+R, H, ROOT = '/tmp/mut/repo', '/tmp/mut/harness', '/tmp/mut/root'
+os.makedirs('/tmp/mut', exist_ok=True)
+def sh(c): return subprocess.run(c, shell=True, capture_output=True, text=True)
+sh(f'rsync -a --delete --exclude target --exclude .git /repo/ {R}/')
+sh(f'rsync -a --delete --exclude target /verif/harness/ {H}/')
+sh(f"sed -i 's#/repo/crates#{R}/crates#' {H}/Cargo.toml")
+shutil.rmtree(ROOT, ignore_errors=True); os.makedirs(ROOT)
+sh(f'cp /verif/known_findings.json {ROOT}/; cp -r /verif/replays {ROOT}/replays; rm -rf {ROOT}/replays/*/found')
+if patch:
+    r = sh(f'cd {R} && patch {reverse}-p1 < {patch}')
+    if r.returncode != 0:
+        print('patch failed', r.stdout, r.stderr); sys.exit(2)
+for f, old, new in edits:
+    p = os.path.join(R, f)
+    s = open(p).read()
+    if s.count(old) != 1:
+        print(f'edit of {f}: old string occurs {s.count(old)} times'); sys.exit(2)
+    open(p, 'w').write(s.replace(old, new))
+b = sh(f'cd {H} && CARGO_NET_OFFLINE=true cargo build --release --offline 2>&1 | tail -30')
+if not os.path.exists(f'{H}/target/release/tvh') or 'error' in b.stdout:
+    print('BUILD FAILED (mutant does not compile?)'); print(b.stdout[-3000:]); sys.exit(2)
+env = dict(os.environ, VERIF_ROOT=ROOT)
+for ID in ids:
+    r = subprocess.run(['timeout','1500',f'{H}/target/release/tvh','check',ID, env.get('VERIF_TIER','quick')], capture_output=True, text=True, env=env)
+    shown = 0
+    for l in r.stdout.splitlines():
+        if l.startswith(('VIOLATION','  detail')):
+            shown += 1
+            if shown <= 4: print(l[:500])
+        elif l.startswith(('KNOWN-FINDING','SUMMARY','INFRA','WATCHDOG','NOTE')):
+            print(l[:300])
+    print(f'[mutant] {ID} rc={r.returncode}')
